@@ -56,6 +56,45 @@ def skeleton2(rnd, cyc=0.3, symbolic=5):
     return p
 
 
+def directed_repin(rnd):
+    """Directed family: a package with several versions that all state the same requirement on a third package,
+    and another package whose requirement can force the first one down (a pin replaced without backtracking)."""
+    p = skeleton2(rnd, cyc=0.0)
+    for k in list(p):
+        if k.endswith("t") and (k.startswith("p") or k.startswith("r") or k.startswith("q")):
+            p[k] = 0
+    p["np"] = 3
+    a, b, x = rnd.sample([1, 2, 3], 3)
+
+    def put(tag, t, r, c, m=0, e=0):
+        p.update({tag + "t": t, tag + "r": r, tag + "c": c, tag + "m": m, tag + "e": e})
+    put("r0", a, rnd.choice([0, 2]), 1)
+    put("r1", b, 0, 1)
+    if rnd.random() < 0.3:
+        put("r2", x, 0, 1)
+    na = rnd.choice([2, 3])
+    p["nv%d" % (a - 1)] = na
+    majors = rnd.sample([1, 2, 3], na)
+    same = rnd.choice([0, 0, 2, 7])  # the requirement every version of a states on x: same text
+    for vi in range(na):
+        tag = "%d%d" % (a - 1, vi)
+        p["mj" + tag], p["pr" + tag] = majors[vi], 0
+        put("p%ss0" % tag, x, same, 1)
+        put("p%ss1" % tag, 0, 0, 1)
+    p["nv%d" % (b - 1)] = 1
+    tagb = "%d0" % (b - 1)
+    p["mj" + tagb], p["pr" + tagb] = 1, 0
+    put("p%ss0" % tagb, a, rnd.choice([3, 7, 1, 4, 6]), 0)   # symbolic digit: <D.0, <=D.0, ==D.0, !=D.0, range
+    put("p%ss1" % tagb, x if rnd.random() < 0.4 else 0, 0, 1)
+    p["nv%d" % (x - 1)] = rnd.choice([1, 2])
+    for vi in range(2):
+        tag = "%d%d" % (x - 1, vi)
+        p["mj" + tag], p["pr" + tag] = vi + 1, 0
+        put("p%ss0" % tag, 0, 0, 1)
+        put("p%ss1" % tag, 0, 0, 1)
+    return p
+
+
 def run(tier):
     base = dict(unwind=120, timeout_s=600 if tier == "quick" else 3000, summarise=SUM, max_witnesses=1, witness_every=500, panic_is_violation=True)
     jobs = []
@@ -94,6 +133,8 @@ def run(tier):
     n2 = 1500 if q else 12000
     for i in range(n2):
         jobs.append(dict(rbase, harness="VerifC08Resolve2", params=skeleton2(rnd2, cyc=0.5 if i % 2 else 0.15)))
+    for i in range(60 if q else 600):
+        jobs.append(dict(rbase, harness="VerifC08Resolve2", params=directed_repin(rnd2)))
     lemmas = [j for j in jobs if not j["harness"].startswith("VerifC08Resolve")]
     whole = [j for j in jobs if j["harness"].startswith("VerifC08Resolve")]
     return run_property("C08", tier, [Group("rpypi", lemmas, files=["c05.go", "c08.go", "c08r.go"]),
